@@ -176,6 +176,14 @@ class _WProxy(object):
             if c <= start:
                 continue
             emit("write", self._path, (self._off, c - start))
+            wf = _state.get("write_fault")
+            if wf is not None:
+                exc = wf(getattr(_tls, "actor", None), self._path, self._off, c - start)
+                if exc is not None:
+                    # the transfer of this chunk fails (disk full, quota, file size limit): what was written before stays
+                    with _inshim():
+                        self._raw.flush()
+                    raise exc
             with _inshim():
                 self._raw.write(data[start:c])
             self._off += c - start
@@ -458,6 +466,11 @@ def _install_h5():
 
 def set_handler(handler):
     _state["handler"] = handler
+
+
+def set_write_fault(fn):
+    """fn(actor, path, offset, count) -> exception to raise instead of transferring that chunk, or None."""
+    _state["write_fault"] = fn
 
 
 def set_root(root):
